@@ -59,6 +59,14 @@ def triples(U):
     return [[dict(x, csum="fix") for x in t] for t in U.get("triples", [])]
 
 
+def relocs(U):
+    """Corrupt.tla!C02Closed: bitmap pointer of an unread group redirected onto fixed metadata + bookkeeping (Relocs), and the
+    entries of the resize inode's reserved-GDT map (ResizeMap); checksums recomputed"""
+    out = [[dict(x, csum="fix") for x in t] for t in U.get("c02_closed", [])]
+    out.sort(key=lambda t: [rkey(x) for x in t])
+    return out
+
+
 def pairs(pairseeds):
     """one order per unordered pair of the seeds of Corrupt.tla!Pairs, checksum recomputed"""
     out = []
@@ -224,6 +232,34 @@ class Base:
                 if b and b != old: return b
             raise NoBind("no second own block")
         raise NoBind(vc)
+
+    def unread_group(self, kind):
+        """lowest-numbered group (not group 0) whose inode / block bitmap the tools do not read: *_UNINIT flag set, descriptor
+        checksum valid, checksum feature present"""
+        if not (self.meta_csum or self.gdt_csum): raise NoBind("no uninit_bg")
+        flag = "INODE_UNINIT" if kind == "ib" else "BLOCK_UNINIT"
+        for d in self.P["gd"][1:]:
+            if flag in d["flags"] and d["csum_ok"]:
+                return d["g"]
+        raise NoBind("no %s group" % flag)
+
+    def fixed_target(self, vc, g):
+        """block of a piece of fixed metadata (kind_where, Corrupt.tla!FixedTarget) seen from group g: sb / gdt / rsvgdt /
+        bb / ib / it  of group 0 ("first"), of the nearest earlier group that has one, or of the nearest later group"""
+        kind, where = vc.rsplit("_", 1)
+        fx = self.P["fixed"].get(kind)
+        if not fx: raise NoBind("no %s" % kind)
+        geo = self.geo
+        if kind in ("bb", "ib", "it"):
+            cand = [(d["g"], d[kind]) for d in self.P["gd"]]            # the object of group h, wherever flex_bg put it
+        else:
+            cand = [((lo - geo["first"]) // geo["bpg"] if lo >= geo["first"] else 0, lo) for lo, hi in fx]
+        if where == "first": c = [b for h, b in cand if h == 0]
+        elif where == "earlier": c = [b for h, b in sorted(cand, reverse=True) if 0 < h < g]
+        elif where == "later": c = [b for h, b in sorted(cand) if h > g]
+        else: raise NoBind(where)
+        if not c: raise NoBind("no %s group with %s" % (where, kind))
+        return c[0]
 
     # ---- checksum fixers: each returns list of (off, bytes) computed on `buf` (already patched) -------------
     def fix_inode(self, buf, ino):
@@ -552,6 +588,37 @@ class Base:
             if field in ("s_usr_quota_inum", "s_grp_quota_inum", "s_orphan_file_inum", "s_journal_inum") and self.rd(buf, o + off, w) == 0:
                 raise NoBind("feature absent")
             return setint(o, off, w), ("sb", None)
+
+        # ---------------- the reserved-GDT map in the double indirect block of the resize inode (Corrupt.tla!ResizeMap)
+        if role == "resize_dind":
+            if "resize" not in R: raise NoBind("role absent")
+            blk = self.rd(buf, self.inode_off(7) + IB + 4 * 13, 4)
+            rsv = geo["rsvgdt"]
+            if not blk or not rsv or "meta_bg" in geo["features"]: raise NoBind("no reserved GDT map")
+            k = {"rsv_first": 0, "rsv_quarter": rsv // 4, "rsv_last": rsv - 1}[field]
+            idx = (geo["descblks"] + k) % (bs // 4)
+            old = self.rd(buf, blk * bs + 4 * idx, 4)
+            if old == 0: raise NoBind("slot empty")
+            return setint(blk * bs, 4 * idx, 4, new=0 if vc == "zero" else old + 1), ("none", None)
+
+        # ---------------- relocated bitmap of a group whose bitmap is not read (Corrupt.tla!Relocs)
+        if role[:-2] in ("gd_unread_", "bb_old_", "gd_old_") and role[-2:] in ("ib", "bb"):
+            kind = role[-2:]
+            g = self.unread_group(kind)
+            old = self.P["gd"][g][kind]
+            if role.startswith("gd_unread_"):
+                if field != {"ib": "bg_inode_bitmap", "bb": "bg_block_bitmap"}[kind]: raise NoBind("field")
+                return setint(loc["gd%d" % g], GD_F[field][0], 4, new=self.fixed_target(vc, g)), ("gd", g)
+            if not (geo["first"] <= old < geo["blocks"]): raise NoBind("old location out of range")
+            og = (old - geo["first"]) // geo["bpg"]
+            if role.startswith("gd_old_"):
+                return setint(loc["gd%d" % og], *GD_F[field]), ("gd", og)
+            o = loc.get("bb%d" % og)
+            if o is None: raise NoBind("bitmap uninitialised")
+            bit = (old - geo["first"]) // geo["cr"] - og * geo["cpg"]
+            if not (buf[o + bit // 8] >> (bit % 8)) & 1: raise NoBind("old block not marked in use")
+            if geo["cr"] > 1: raise NoBind("cluster shared with other metadata")
+            return [(o + bit // 8, bytes([buf[o + bit // 8] ^ (1 << (bit % 8))]))], ("bitmap", ("bb", og))
 
         def small_group():
             b = self.some_block_of(R.get("file_small", 0))
